@@ -1599,6 +1599,12 @@ class C13(Prop):
                 e = r.choice([a, 1 << (8 * w - 1), (1 << (8 * w)) - 1, (1 << (8 * w - 1)) + r.randint(0, 200), 3, 0])
                 eop = r.choice(['add', 'add', 'mul', 'sub', 'xor', 'or', 'and', 'floordiv', 'mod']) if 'add' in self.OPS else op
                 out.append(show(['uop', eop, w, e, w, e]))
+            if r.random() < 0.04:
+                # powers that fit exactly / miss by one: base 2^(bits/e) - 1, 2^(bits/e), exponent e (plain or uint exponent)
+                e = r.choice([2, 4, 8])
+                pw = r.choice(W)
+                base = (1 << (8 * pw // e)) - r.choice([1, 1, 0])
+                out.append(show(['uop', 'pow', pw, base, r.choice(['-', pw]), e]))
             if r.random() < 0.1:
                 out.append(show(['uinv', w, a]))
             if r.random() < 0.1:
